@@ -91,7 +91,10 @@ def gen_ops(rnd, n, ciphers):
                 recips.append(['key', k])
             else:
                 recips.append(['pw', rnd.randrange(len(PWS)), rnd.choice(HASHES)])
-        return {'op': 'encrypt', 'cipher': rnd.choice(ciphers), 'recips': recips, 'msg': rnd.randrange(3), 'comp': rnd.choice(['Uncompressed', 'ZIP'])}
+        # same_object: the PGPMessage OBJECT of an earlier operation of this sequence (same text, same compression) is encrypted again,
+        # instead of a new object with the same content
+        return {'op': 'encrypt', 'cipher': rnd.choice(ciphers), 'recips': recips, 'msg': rnd.randrange(3), 'comp': rnd.choice(['Uncompressed', 'ZIP']),
+                'same_object': rnd.random() < 0.5}
 
     while len(ops) < n - 3:
         r = rnd.random()
@@ -103,6 +106,7 @@ def gen_ops(rnd, n, ciphers):
             ops.append({'op': 'reprotect', 'cipher': rnd.choice(ciphers), 'hash': rnd.choice(HASHES), 'pw': 2})
     # the same message to the same recipient twice, with the same cipher; the same key protected twice with the same passphrase
     twice = enc(rnd.choice(['key', 'pw', 'key', 'pw+key']))
+    twice['same_object'] = True
     ops.insert(rnd.randrange(len(ops) + 1), twice)
     ops.insert(rnd.randrange(len(ops) + 1), dict(twice))
     p = {'op': 'protect', 'cipher': rnd.choice(ciphers), 'hash': rnd.choice(HASHES), 'pw': 2, 'fresh': True}
@@ -114,10 +118,12 @@ def gen_ops(rnd, n, ciphers):
 MESSAGES = ['attack at dawn', '', 'attack at dawn' * 200]
 
 
-def do_encrypt(op):
+def do_encrypt(op, objs=None):
     K = keys()
     cipher = getattr(SymmetricKeyAlgorithm, op['cipher'])
     m = pgpy.PGPMessage.new(MESSAGES[op['msg']], compression=getattr(CompressionAlgorithm, op['comp']))
+    if objs is not None and op.get('same_object'):
+        m = objs.setdefault((op['msg'], op['comp']), m)
     recips = op['recips']
     sk = cipher.gen_key() if len(recips) > 1 else None       # PGPy's documented way to make a shared session key
     e = None
@@ -221,13 +227,13 @@ def run_sequence(arg):
     rec = Recorder(_REAL)
     os.urandom = rec
     try:
-        reprot = None
+        reprot, objs = None, {}
         for oi, op in enumerate(ops):
             rec.op = oi
             f = []
             try:
                 if op['op'] == 'encrypt':
-                    raw, plain = do_encrypt(op)
+                    raw, plain = do_encrypt(op, objs)
                     rec.op = -1
                     vals = check_encrypt(op, raw, plain, rec.of(oi), f)
                 elif op['op'] == 'protect':
